@@ -104,19 +104,40 @@ impl Dump {
 /// Formatting with a watchdog: the layout search is exponential on some inputs (finding F21), and a run
 /// that does not come back within the budget is reported as "TIMEOUT" (its thread is abandoned).
 pub fn format_with(src: &str, opt: PrettyOptions) -> Result<String, String> {
-    let (tx, rx) = std::sync::mpsc::channel();
-    let owned = src.to_string();
-    std::thread::Builder::new()
-        .stack_size(64 << 20)
-        .spawn(move || {
-            let _ = tx.send(format_unbounded(&owned, opt));
-        })
-        .expect("spawn");
-    let budget = std::env::var("ZYFMT_BUDGET_S").ok().and_then(|s| s.parse().ok()).unwrap_or(10u64);
-    match rx.recv_timeout(std::time::Duration::from_secs(budget)) {
-        | Ok(r) => r,
-        | Err(_) => Err(format!("TIMEOUT no output after {budget} s")),
+    // one helper thread per calling thread; a helper that does not answer in time is abandoned and replaced
+    type Job = (String, PrettyOptions);
+    type Helper = (std::sync::mpsc::Sender<Job>, std::sync::mpsc::Receiver<Result<String, String>>);
+    thread_local! {
+        static HELPER: std::cell::RefCell<Option<Helper>> = const { std::cell::RefCell::new(None) };
     }
+    let budget = std::env::var("ZYFMT_BUDGET_S").ok().and_then(|s| s.parse().ok()).unwrap_or(10u64);
+    HELPER.with(|h| {
+        let mut h = h.borrow_mut();
+        if h.is_none() {
+            let (jtx, jrx) = std::sync::mpsc::channel::<Job>();
+            let (rtx, rrx) = std::sync::mpsc::channel();
+            std::thread::Builder::new()
+                .stack_size(256 << 20)
+                .spawn(move || {
+                    while let Ok((src, opt)) = jrx.recv() {
+                        if rtx.send(format_unbounded(&src, opt)).is_err() {
+                            break;
+                        }
+                    }
+                })
+                .expect("spawn");
+            *h = Some((jtx, rrx));
+        }
+        let (jtx, rrx) = h.as_ref().unwrap();
+        jtx.send((src.to_string(), opt)).expect("helper alive");
+        match rrx.recv_timeout(std::time::Duration::from_secs(budget)) {
+            | Ok(r) => r,
+            | Err(_) => {
+                *h = None; // the helper keeps searching; its channels are dropped
+                Err(format!("TIMEOUT no output after {budget} s"))
+            }
+        }
+    })
 }
 
 fn format_unbounded(src: &str, opt: PrettyOptions) -> Result<String, String> {
@@ -695,7 +716,10 @@ pub fn eval_case(src: &str, opt: &Opt, origin: &str, tally: &mut Tally, findings
             let (r1, r2) = (scan(&out1).tokens, scan(&out2).tokens);
             let narrow = opt.width < 100 || src.contains("width(");
             let strip = |s: &str| s.lines().map(|l| l.trim_end()).collect::<Vec<_>>().join("\n");
-            let cause = if r1 != r2 && norm_tokens(&r1, true) == norm_tokens(&r2, true) {
+            let sans = |v: &Vec<String>| v.iter().filter(|t| *t != "(" && *t != ")").cloned().collect::<Vec<_>>();
+            let cause = if r1 != r2 && sans(&r1) == sans(&r2) {
+                "pairs-differ-between-first-and-second-run" // nothing but parentheses changed
+            } else if r1 != r2 && norm_tokens(&r1, true) == norm_tokens(&r2, true) {
                 "contraction-exposed-by-the-first-run" // telescope / hole payload / pun seen only once the first run removed a pair
             } else if r1 != r2 {
                 "tokens-change-on-second-run"
@@ -709,6 +733,8 @@ pub fn eval_case(src: &str, opt: &Opt, origin: &str, tally: &mut Tally, findings
                 "trailing-whitespace-in-first-output"
             } else if narrow && opt.layout == LayoutIntentions::Preserve && settles {
                 "width-forced-break-read-back-as-intention"
+            } else if narrow && settles && scan(src).tokens.iter().filter(|t| *t == "(").count() > r1.iter().filter(|t| *t == "(").count() {
+                "layout-chosen-around-a-pair-the-same-run-removes" // the alternatives of the first run still contain the grouping node
             } else {
                 "layout"
             };
@@ -862,6 +888,9 @@ pub fn replay_format(cases: &str, trace: &str, summary: &str, tier: &str) {
             let (min_t, min_k) = pick(&|p| p != "red");
             let (bare_t, _) = pick(&|p| p == "no");
             let (full, min, bare) = (join(&full_t), join(&min_t), join(&bare_t));
+            // every pair written twice: `((t))` - the inner pair is redundant in every position
+            let double_t: Vec<&str> = (0..toks.len()).flat_map(|i| if pars[i] == "no" { vec![toks[i].as_str()] } else { vec![toks[i].as_str(), toks[i].as_str()] }).collect();
+            let double = join(&double_t);
             let mut tally = Tally::default();
             let mut findings: Vec<Value> = Vec::new();
             let origin = format!("tree#{idx} {}", min.trim_end());
@@ -896,6 +925,7 @@ pub fn replay_format(cases: &str, trace: &str, summary: &str, tier: &str) {
                 if bare_ok {
                     outs.push(("bare", eval_case(&bare, opt, &origin, &mut tally, &mut findings)));
                 }
+                outs.push(("double", eval_case(&double, opt, &origin, &mut tally, &mut findings)));
                 if opt.parens == Parentheses::Minimal {
                     // C14 canonicity: spellings that differ in redundant single-line pairs format to one text
                     let first = outs[0].1.clone();
@@ -908,7 +938,9 @@ pub fn replay_format(cases: &str, trace: &str, summary: &str, tier: &str) {
                         if o.is_some() && first.is_some() && *o != first {
                             canon_bad += 1;
                             let (r1, r2) = (scan(first.as_deref().unwrap()).tokens, scan(o.as_deref().unwrap()).tokens);
-                            let cause = if norm_tokens(&r1, true) == norm_tokens(&r2, true) { "contraction-hidden-by-a-redundant-pair" } else { "other" };
+                            let sans = |v: &Vec<String>| v.iter().filter(|t| *t != "(" && *t != ")").cloned().collect::<Vec<_>>();
+                            let ctor_group = full_t.windows(3).any(|w| w[0].starts_with('+') && w[1] == "(" && w[2] == "(");
+                            let cause = if sans(&r1) == sans(&r2) && ctor_group { "constructor-argument-tuple-behind-a-redundant-pair" } else if sans(&r1) == sans(&r2) { "pairs-differ" } else if norm_tokens(&r1, true) == norm_tokens(&r2, true) { "contraction-hidden-by-a-redundant-pair" } else { "other" };
                             findings.push(json!({"property": "C14", "kind": "not-canonical", "origin": origin, "options": opt.name(), "input": full,
                                 "detail": format!("cause={cause}; full and {name} spellings format differently: {:?} vs {:?}", first.as_deref().unwrap_or(""), o.as_deref().unwrap_or(""))}));
                             break;
@@ -925,6 +957,41 @@ pub fn replay_format(cases: &str, trace: &str, summary: &str, tier: &str) {
                                 findings.push(json!({"property": "C14", "kind": "paren-skeleton", "origin": origin, "options": opt.name(), "input": full,
                                     "detail": format!("cause={cause}; expected `{}` got `{}`", want.join(" "), got.join(" "))}));
                             }
+                        }
+                    }
+                }
+            }
+            // C14: other starting layouts - one or two line breaks (or a blank line) in the gaps of the full and the
+            // minimal spelling; everything on its own line.  (All trees of depth <= 1; deeper ones in the thorough tier.)
+            let depth = c["d"].as_u64().unwrap_or(9);
+            if depth <= 1 || (tier != "quick" && depth <= 2 && idx % 5 == 0) {
+                for (sname, st) in [("full", &full_t), ("minimal", &min_t)] {
+                    let n = st.len();
+                    let build = |breaks: &[(usize, &str)]| -> String {
+                        let mut s = String::new();
+                        for (i, t) in st.iter().enumerate() {
+                            if i > 0 {
+                                s.push_str(breaks.iter().find(|(g, _)| *g == i).map(|(_, b)| *b).unwrap_or(" "));
+                            }
+                            s.push_str(t);
+                        }
+                        s.push('\n');
+                        s
+                    };
+                    let mut layouts: Vec<String> = Vec::new();
+                    for g in 1..n {
+                        layouts.push(build(&[(g, "\n")]));
+                        layouts.push(build(&[(g, "\n\n")]));
+                        if depth <= 1 {
+                            for h in (g + 1)..n {
+                                layouts.push(build(&[(g, "\n"), (h, "\n")]));
+                            }
+                        }
+                    }
+                    layouts.push(build(&(1..n).map(|g| (g, "\n")).collect::<Vec<_>>()));
+                    for (li, src) in layouts.iter().enumerate() {
+                        for opt in [Opt::default(), Opt { layout: LayoutIntentions::BlankLinesOnly, ..Opt::default() }, Opt { parens: Parentheses::Preserve, ..Opt::default() }] {
+                            eval_case(src, &opt, &format!("{origin} [{sname} spelling, line-break layout #{li}]"), &mut tally, &mut findings);
                         }
                     }
                 }
